@@ -51,6 +51,9 @@ Notation step_flow := (step_flow fl).
 Lemma flush_pc_not_locked : forall s k, is_sending (flush_pc s k) = false /\ is_recving (flush_pc s k) = false.
 Proof. intros s k. destruct k; flush_cases; cbn; auto. Qed.
 
+Lemma done_pc_not_locked : forall m s v, is_sending (done_pc fl m s v) = false /\ is_recving (done_pc fl m s v) = false.
+Proof. intros m s v. unfold done_pc. destruct (f_lazyread fl && meth_eqb m MRead); [cbn; auto | apply flush_pc_not_locked]. Qed.
+
 Lemma pcall_not_locked : forall m s, is_sending (pcall m s) = false /\ is_recving (pcall m s) = false.
 Proof. intros m s. unfold pcall. destruct m; auto. destruct (deque s); auto. apply flush_pc_not_locked. Qed.
 
@@ -60,6 +63,9 @@ Proof. intros m s k. destruct k; cbn; auto. apply pcall_not_locked. Qed.
 
 Ltac fl :=
   repeat match goal with
+  | |- context [done_pc ?f ?m ?s ?v] =>
+      let A := fresh "A" in let B := fresh "B" in
+      destruct (done_pc_not_locked m s v) as [A B]; rewrite ?A, ?B; clear A B
   | |- context [flush_pc ?s ?k] =>
       let A := fresh "A" in let B := fresh "B" in
       destruct (flush_pc_not_locked s k) as [A B]; rewrite ?A, ?B; clear A B
@@ -67,6 +73,7 @@ Ltac fl :=
 
 Ltac inv_fl H :=
   repeat match type of H with
+  | context [done_pc ?f ?m ?s ?v] => let f := fresh "dp" in let E := fresh "Edp" in remember (done_pc f m s v) as f eqn:E
   | context [flush_pc ?s ?k] => let f := fresh "fp" in let E := fresh "Efp" in remember (flush_pc s k) as f eqn:E
   end;
   inversion H; subst.
